@@ -67,6 +67,14 @@ def main_run(ctx):
         ctx.violation("lines", {"what": "the lines returned differ from the scanned lines on which the components, evaluated left to right under their documented meaning (CORE model), hold",
                                 "case": c, "more": [core.describe(jobs[i], res[i]) for i in other[1:4]], "cases": len(other)})
     nontriv = {o["text"] + repr(j[1]) for j, o in zip(jobs, res) if not o["exc"] and len(j[0]["comps"]) >= 2 and o["lines"] and o["scan"] > len(o["lines"])}
+    # the translator tie: the adjudication loop Matcher.matches as written in the source of the tree under test, regenerated and (when the text
+    # differs from the checked-in Match/AdjSrc.v) re-proved equal to the model's loop, for every component evaluator
+    import srctie
+    tie = srctie.check(ctx, "adjudicate")
+    if tie["status"] in ("untranslatable", "unproved") and not ctx.violations:
+        ctx.violation("source-tie", {"what": "the translation of Matcher.matches from csvpath/matching/matcher.py is no longer proved equal to the model's adjudication loop: theorem "
+                                             "matches_src_eq (C01_adjudication_source) does not check against the source of this tree; the generated cases of this run found no input "
+                                             "on which the property fails", "theorem": "matches_src_eq (C01_adjudication_source)", "tie": tie}, no_input=True)
     ctx.coverage.update({
         "evaluations": len(jobs), "distinct_nontrivial": len(nontriv),
         "rule": "typed CORE csvpaths: 1-6 components (50% boolean tests, 30% assignments/push/pop, 20% when/do), expression depth <= 3, over gt/gte/lt/lte/above/below (30% with equal operands), "
@@ -78,6 +86,7 @@ def main_run(ctx):
         "traces_validated_against_impl": len(jobs) - len(clean_bad),
         "correspondence": f"clean CORE model == implementation on {len(jobs) - len(clean_bad)}/{len(jobs)} runs; explained by switch lt: {len(lt_only)}, strcmp: {len(str_only)}, both: {len(both)}, unexplained: {len(other)}",
     })
+    ctx.coverage["source_tie"] = {"status": tie["status"], "detail": tie["detail"][:400]}
 
 
 
